@@ -28,7 +28,7 @@ theorem wf_no_unbound (P : Package) (N : Num D) (hP : WellFormed P = true)
   obtain ⟨s', hda⟩ := hwf'
   have hres := exec_sound (P.ctx N ev) P.daCtx rfl (tokenBank_some P N ev) P.body _ s'
     { env := σc, rows := [] } { env := σc, rows := [] } hda (classDA_AsubD _)
-    (good_of_clean P σc σc hc hc) rfl
+    ⟨good_of_clean P σc σc hc hc, by intro f hf; simp [classDA] at hf, by intro p hp; simp [classDA] at hp⟩ rfl
   unfold runEvent
   rcases hres with ⟨f, e1, _, hf⟩ | ⟨t, _, e1, _, _, _⟩
   · rw [e1]; intro h; simp only [Except.error.injEq] at h; exact hf n h
@@ -74,7 +74,7 @@ theorem block_scoped (C : DACtx) (body : List Stmt) (s s' : DA) (h : da C (.bloc
   simp only [da] at h
   split at h
   · simp only [Option.some.injEq] at h; subst h
-    exact ⟨rfl, fun x hx => by simp only [List.mem_filter, decide_eq_true_eq] at hx; exact hx.2⟩
+    exact ⟨rfl, fun x hx => by simp only [DA.restrict, List.mem_filter, decide_eq_true_eq] at hx; exact hx.2⟩
   · simp at h
 
 /-- **C02.declared_once** — an accepted program never declares a name that is already declared
@@ -97,5 +97,34 @@ theorem declared_once (C : DACtx) (ty n : String) (init : Option CExpr) (s s' : 
       split at h <;> (simp only [Option.some.injEq] at h; subst h; simp)
 
 example : WellFormed (FaxVerif.Cpp.Package.mk (.block []) [] [] "" []) = true := by decide +kernel
+
+end FaxVerif.C02
+
+namespace FaxVerif.C02
+open FaxVerif.Cpp
+
+/-- the checker accepts the `First()` idiom (flag, guarded capture in the loop, emptiness check,
+use of the captured value) — the path-sensitive facts of `da` are what make it acceptable -/
+example : WellFormed (FaxVerif.Cpp.Package.mk
+    (.block [.decl "bool" "is_first" (some (.bool true)), .decl "std::vector<double>" "v" none,
+      .loop "i" (.var "v") [.ite (.var "is_first") [.set "is_first" (.bool false), .set "col" (.var "i")] []],
+      .ite (.var "is_first") [.throw "First() called on an empty sequence"] [],
+      .fill "t"])
+    [("double", "col")] [("col", "col")] "t" []) = true := by decide +kernel
+
+/-- … and rejects the same program without the emptiness check (the column may be unset) -/
+example : WellFormed (FaxVerif.Cpp.Package.mk
+    (.block [.decl "bool" "is_first" (some (.bool true)), .decl "std::vector<double>" "v" none,
+      .loop "i" (.var "v") [.ite (.var "is_first") [.set "is_first" (.bool false), .set "col" (.var "i")] []],
+      .fill "t"])
+    [("double", "col")] [("col", "col")] "t" []) = false := by decide +kernel
+
+/-- … and when the flag is lowered without capturing the value -/
+example : WellFormed (FaxVerif.Cpp.Package.mk
+    (.block [.decl "bool" "is_first" (some (.bool true)), .decl "std::vector<double>" "v" none,
+      .loop "i" (.var "v") [.ite (.var "is_first") [.set "is_first" (.bool false)] []],
+      .ite (.var "is_first") [.throw "First() called on an empty sequence"] [],
+      .fill "t"])
+    [("double", "col")] [("col", "col")] "t" []) = false := by decide +kernel
 
 end FaxVerif.C02
